@@ -20,10 +20,13 @@ Theorem C15_bridge :
   (forall b, cw_neg_batch b = - b) /\
   (forall a b, cw_req_lt a b = (a <? b)) /\
   (forall n b, cw_queue_short n b = (n <? b)) /\
-  (forall a, cw_not_loaded a = negb (a =? 0)).
+  (forall a, cw_not_loaded a = negb (a =? 0)) /\
+  (forall a b, strat_eq a b = (s_bs a =? s_bs b) && (s_rt a =? s_rt b) && res_eq (s_res a) (s_res b)) /\
+  (forall a b, strat_lt a b = if s_rt a =? s_rt b then (if s_bs a =? s_bs b then res_lt (s_res a) (s_res b) else s_bs a <? s_bs b)
+                              else s_rt a <? s_rt b).
 Proof.
   exact (conj bridge_enforce (conj bridge_hopeless (conj bridge_expire (conj bridge_ready (conj bridge_priority
-        (conj bridge_neg_batch (conj bridge_req_lt (conj bridge_queue_short bridge_not_loaded)))))))).
+        (conj bridge_neg_batch (conj bridge_req_lt (conj bridge_queue_short (conj bridge_not_loaded (conj bridge_strat_eq bridge_strat_lt)))))))))).
 Qed.
 Print Assumptions C15_bridge.
 
